@@ -216,3 +216,44 @@ func TestTwistXAndLift(t *testing.T) {
 		t.Error("lift_x(Gx) should be G (G has even y)")
 	}
 }
+
+func TestMinaGenerators(t *testing.T) {
+	for _, tc := range []struct {
+		mina, zcash *Curve
+		oddY        bool
+	}{{PallasMina(), Pallas(), true}, {VestaMina(), Vesta(), false}} {
+		c := tc.mina
+		if c.P.Cmp(tc.zcash.P) != 0 || c.N.Cmp(tc.zcash.N) != 0 || c.B.Cmp(tc.zcash.B) != 0 || c.A.Sign() != 0 || ByName(c.Name) != c {
+			t.Fatalf("%s: parameters", c.Name)
+		}
+		// independent derivation: x = 1, y² = 6
+		y, ok := SqrtFp(big.NewInt(6), c.P)
+		if !ok || (c.G.Y.Cmp(y) != 0 && c.G.Y.Cmp(new(big.Int).Sub(c.P, y)) != 0) || c.G.X.Cmp(bigOne) != 0 {
+			t.Fatalf("%s: generator is not (1, ±sqrt 6)", c.Name)
+		}
+		if (c.G.Y.Bit(0) == 1) != tc.oddY {
+			t.Fatalf("%s: root choice", c.Name)
+		}
+		if l, _ := c.LiftX(bigOne, tc.oddY); !c.Equal(l, c.G) {
+			t.Fatalf("%s: LiftX(1)", c.Name)
+		}
+		if !c.IsOnCurve(c.G) || !c.IsNeutral(c.ScalarMul(c.G, c.N)) || c.Equal(c.G, tc.zcash.G) {
+			t.Fatalf("%s: generator on curve / order", c.Name)
+		}
+		// same group, different base point: ScalarBaseMul differs, ScalarMul agrees
+		k := big.NewInt(123456789)
+		if c.Equal(c.ScalarBaseMul(k), tc.zcash.ScalarBaseMul(k)) || !c.Equal(c.ScalarMul(tc.zcash.G, k), tc.zcash.ScalarBaseMul(k)) {
+			t.Fatalf("%s: base point handling", c.Name)
+		}
+		// encodings and ECDSA work on the variant
+		p := c.ScalarBaseMul(k)
+		if q, iss, err := c.DecodePasta(c.EncodePasta(p, true)); err != nil || iss != 0 || !c.Equal(p, q) {
+			t.Fatalf("%s: pasta encoding", c.Name)
+		}
+		dg := []byte("0123456789abcdef0123456789abcdef")
+		r, s, _, ok := c.ECDSASign(k, dg, big.NewInt(987654321))
+		if !ok || !c.ECDSAVerify(p, dg, r, s) || tc.zcash.ECDSAVerify(p, dg, r, s) {
+			t.Fatalf("%s: ECDSA must verify under the Mina generator only", c.Name)
+		}
+	}
+}
